@@ -98,6 +98,16 @@ Theorem C19_signed_pattern : forall k x,
 Proof. exact signed_pattern. Qed.
 Print Assumptions C19_signed_pattern.
 
+(* decoder side: reading the same bytes with the signed decoder instead of the unsigned one
+   of the same width subtracts 2^bits exactly when the top bit is set *)
+Theorem C19_signed_decode : forall bo wo k payload ptr u p,
+  kind_signed k = true ->
+  decode1 code bo wo (TNum (unsigned_of k)) payload ptr = Ok (VNum (unsigned_of k) u, p) ->
+  let m := 2 ^ (8 * Z.of_nat (kind_width k)) in
+  decode1 code bo wo (TNum k) payload ptr = Ok (VNum k (if m / 2 <=? u then u - m else u), p).
+Proof. exact signed_decode_code. Qed.
+Print Assumptions C19_signed_decode.
+
 (* numbers outside their type make the builder raise; nothing wraps silently *)
 Theorem C19_out_of_range_raises : forall bo wo k x,
   in_kind_range k x = false -> add_value code bo wo (VNum k x) = Raise StructError.
